@@ -10,6 +10,8 @@ pub mod c06;
 pub mod c07;
 pub mod c09;
 pub mod c10;
+pub mod c11;
+pub mod c12;
 pub mod c16;
 
 pub fn load_case(path: &str) -> Value {
@@ -48,6 +50,8 @@ pub fn dispatch(id: &str, tier: Tier, replay: Option<&str>) {
         "c07" => c07::run(tier, replay),
         "c09" => c09::run(tier, replay),
         "c10" => c10::run(tier, replay),
+        "c11" => c11::run(tier, replay),
+        "c12" => c12::run(tier, replay),
         "c16" => c16::run(tier, replay),
         _ => {
             eprintln!("unknown check {id}");
